@@ -213,7 +213,7 @@ C07_Deterministic ==
 C07_RingDirection ==
   \A j \in Later : LET Q == Trace[j] IN
     (Valid /\ Q.poly # R.poly /\ SameUpToRingDir(R.poly, Q.poly) /\ Q.lv = R.lv /\ SameFlagsExcept(Q, "none")) =>
-      (Q.res = R.res /\ Q.out = R.out)
+      (Q.res = R.res /\ (Q.out = "ok") = (R.out = "ok"))      \* (a refusal may name a different vertex of the reversed ring)
 RevOf(ps, qs) == /\ Len(ps) = Len(qs)
                  /\ \A p \in 1..Len(ps) : /\ Len(ps[p]) = Len(qs[p])
                                           /\ \A r \in 1..Len(ps[p]) : CyclicRevEq(ps[p][r], qs[p][r])
